@@ -220,6 +220,13 @@ def classify(c, cr, ref):
         return "KF-C05-escaped-dollar-quote"
     if bracket_across(c):
         return "KF-C05-bracket-across-quotes"
+    # bash keeps at most one quoted-null of a word in some shapes: ""$x${e:-""} loses its trailing empty
+    # field although $x${e:-""} keeps it.  Class: an unquoted ${p op ""} / ${p op ''} next to another quoting
+    # piece, the two results differing only in empty fields.
+    if cr[0] == "OK" and ref[0] == "OK" and [f for f in cr[1] if f != ""] == [f for f in ref[1] if f != ""] \
+            and any(p[0] == "P" and p[1][0] in ("d", "a") and p[1][3] in ('""', "''") for p in c.word) \
+            and any(p[0] in ("Q", "D") for p in c.word):
+        return "KF-C05-bash-quoted-null-once"
     # "${a[@]+''}"-style: a quoted-null default/alternative of a [@] expansion is removed by bash like "$@"
     for p in flatp:
         if p[0] == "P" and p[1][0] in ("d", "a") and p[1][2][0] in ("@", "R") and p[1][3] in ("''", '""'):
